@@ -215,6 +215,66 @@ pub fn run(p: &Params) {
         arrived: 0,
     }))));
 
+    // ---- prologue: many wait queues at once -----------------------------------------------------------------------
+    // K threads each wait on their OWN condition (K + K distinct keys in the wait table, so the table grows beyond its
+    // minimal capacity); the objects are relocated while everybody is queued and notify_all is the FIRST wait-table
+    // operation after the collection. Every waiter must wake up (no lost wake-up after rehashing).
+    {
+        let k = 6 + (p.seed as usize % 9);
+        let pairs: Vec<(H, H)> = (0..k).map(|i| (mk(10 + 2 * i), mk(11 + 2 * i))).collect();
+        struct Flags(Vec<UnsafeCell<bool>>);
+        unsafe impl Sync for Flags {}
+        let flags: &'static Flags = Box::leak(Box::new(Flags((0..k).map(|_| UnsafeCell::new(false)).collect())));
+        let mut helpers = Vec::new();
+        for i in 0..k {
+            let th = DoraThread::new(rt, ThreadState::Parked);
+            verif::thread_registered();
+            rt.threads.add_thread(th.clone());
+            helpers.push(th.clone());
+            let (m, c) = pairs[i];
+            std::thread::spawn(move || {
+                let t = init_current_thread(th);
+                t.unpark(rt);
+                lock_op(m);
+                while !unsafe { *flags.0[i].get() } {
+                    cond_wait(c, m);
+                }
+                unlock_op(m);
+                rt.threads.remove_current_thread();
+                t.stop();
+                verif::thread_finished();
+                deinit_current_thread();
+            });
+        }
+        // wait until every helper is queued on its condition (enqueue sets the waiter word)
+        loop {
+            poll();
+            if pairs.iter().all(|(_, c)| c.word().load(Ordering::SeqCst) != 0) {
+                break;
+            }
+            parked_scope(|| std::thread::yield_now());
+        }
+        verif::force_collect(rt); // relocates all mutex/condition objects; wait-table keys are updated in place
+        for (i, (m, c)) in pairs.iter().enumerate() {
+            if p.seed % 2 == 0 {
+                // notify_all first, flag under the mutex afterwards would lose the wake-up legitimately: set flag first
+                lock_op(*m);
+                unsafe { *flags.0[i].get() = true };
+                unlock_op(*m);
+                cond_notify_all(*c);
+            } else {
+                lock_op(*m);
+                unsafe { *flags.0[i].get() = true };
+                cond_notify_all(*c);
+                unlock_op(*m);
+            }
+        }
+        for th in &helpers {
+            th.join();
+        }
+        rt.wait_lists.verif_check();
+    }
+
     let nthreads = p.threads.max(2);
     let producers = (nthreads + 1) / 2;
     let consumers = nthreads - producers;
